@@ -486,6 +486,37 @@ func scriptFor(fam string, idx int) func(*scen) {
 	return nil
 }
 
+// raceStopRightAfterFeed (racing scenarios): records arrive on an idle server and Stop is called at once, while the
+// reader is still between taking the record and waking the dispatcher (its log calls yield the processor): whatever
+// the order, nothing panics, the server stops, and the epilogue's WaitStatus returns.
+func raceStopRightAfterFeed(s *scen) {
+	r, g := s.r, s.g
+	// zero to two calls answered first: the queue is empty again and the dispatcher idle
+	for i, n := 0, g.intn(3); i < n; i++ {
+		r.feedMsgs(false, []member{mkCall(strconv.Itoa(30+i), "g", s.newTok())}, false)
+		r.quiet = true
+		r.settleEnv()
+		r.mu.Lock()
+		started := append([]string(nil), r.started...)
+		r.mu.Unlock()
+		for _, p := range started {
+			r.gate(p, gateMsg{res: "true"})
+		}
+		r.settleEnv()
+		r.quiet = false
+	}
+	if g.chance(1, 2) {
+		r.feedMsgs(false, []member{mkCall("41", "g", s.newTok())}, false)
+	} else {
+		r.feedMsgs(false, []member{mkNote("g", s.newTok())}, false)
+	}
+	// give the reader between no and a few turns before the Stop
+	for i, n := 0, g.intn(7); i < n; i++ {
+		runtime.Gosched()
+	}
+	r.callStop()
+}
+
 // scriptNotesOnlyBatch: one inbound array holding only notifications; the LAST member's handler returns while the
 // others are still running; the server is stopped and WaitStatus called: it may return only once every handler has.
 func scriptNotesOnlyBatch(s *scen) {
@@ -681,6 +712,8 @@ func runServerScenario(t *testing.T, fam string, seed uint64, idx int, out *bufi
 		s.sched()
 		if script := scriptFor(fam, idx); script != nil && policy != "race" {
 			script(s)
+		} else if policy == "race" && (fam == "c08" || fam == "c10") && idx%18 == 11 {
+			raceStopRightAfterFeed(s)
 		} else {
 			n := f.steps/2 + g.intn(f.steps)
 			for i := 0; i < n; i++ {
